@@ -254,7 +254,11 @@ func genMergeCase(rng *rand.Rand, st *Stats) []string {
 	}
 	nops := 4 + rng.Intn(24)
 	for j := 0; j < nops; j++ {
-		switch r := rng.Intn(20); {
+		r := rng.Intn(20)
+		if j == 0 && rng.Intn(5) != 0 {
+			r = rng.Intn(9) // mostly position the iterator first
+		}
+		switch {
 		case r < 3:
 			ops = append(ops, "rewind")
 		case r < 9:
@@ -565,8 +569,18 @@ func genSkl(rng *rand.Rand, n int, st *Stats) []string {
 		pool := itKeyPool(rng, 2+rng.Intn(20))
 		nops := 5 + rng.Intn(60)
 		st.Inc("sklcase:" + sizeBucket(nops))
+		itPos, uniPos := false, false // iterator probably positioned (generator's guess)
 		for j := 0; j < nops; j++ {
-			switch r := rng.Intn(100); {
+			r := rng.Intn(100)
+			// Next/Prev on an unpositioned iterator is a fatal assertion in Go ("panic" in both
+			// outputs): keep a few, redirect most to a positioning call.
+			if r >= 84 && r < 92 && !itPos && rng.Intn(8) != 0 {
+				r = 70 + rng.Intn(14)
+			}
+			if r >= 97 && !uniPos && rng.Intn(8) != 0 {
+				r = 93 + rng.Intn(4)
+			}
+			switch {
 			case r < 40:
 				k := pool[rng.Intn(len(pool))]
 				ops = append(ops, fmt.Sprintf("put %s %s ?", hx(k), hx(itGenVS(rng))))
@@ -582,22 +596,29 @@ func genSkl(rng *rand.Rand, n int, st *Stats) []string {
 				ops = append(ops, "empty")
 			case r < 73:
 				ops = append(ops, "first")
+				itPos = true
 			case r < 76:
 				ops = append(ops, "last")
+				itPos = true
 			case r < 80:
 				ops = append(ops, "seek "+hx(itSeekKey(rng, pool, st)))
+				itPos = true
 			case r < 84:
 				ops = append(ops, "seekprev "+hx(itSeekKey(rng, pool, st)))
+				itPos = true
 			case r < 88:
 				ops = append(ops, "next")
 			case r < 92:
 				ops = append(ops, "prev")
 			case r < 93:
 				ops = append(ops, fmt.Sprintf("uni %d", rng.Intn(2)))
+				uniPos = false
 			case r < 95:
 				ops = append(ops, "urewind")
+				uniPos = true
 			case r < 97:
 				ops = append(ops, "useek "+hx(itSeekKey(rng, pool, st)))
+				uniPos = true
 			default:
 				ops = append(ops, "unext")
 			}
@@ -728,6 +749,7 @@ func execSkl(ops []string, st *Stats) ([]string, []string) {
 	var it *skl.Iterator
 	var uni *skl.UniIterator
 	ref := &itRefMap{}
+	uniRev := false
 	closeAll := func() {
 		if it != nil {
 			it.Close()
@@ -763,6 +785,7 @@ func execSkl(ops []string, st *Stats) ([]string, []string) {
 				l = skl.NewSkiplist(1 << 20)
 				it = l.NewIterator()
 				uni = l.NewUniIterator(false)
+				uniRev = false
 				ref = &itRefMap{}
 				return "ok"
 			case "put":
@@ -995,15 +1018,11 @@ func execSkl(ops []string, st *Stats) ([]string, []string) {
 			}
 			return "bad-op"
 		})
-		if w[0] == "reset" {
-			uniRev = false
-		}
 	}
 	closeAll()
 	return outs, oracle
 }
 
-var uniRev bool
 
 // ---------------------------------------------------------------- sklstress (no model)
 
@@ -1013,7 +1032,7 @@ var uniRev bool
 func genSklStress(rng *rand.Rand, n int, st *Stats) []string {
 	var ops []string
 	for c := 0; c < n; c++ {
-		ops = append(ops, fmt.Sprintf("stress %d %d %d %d %d", rng.Int63(), 2+rng.Intn(7), 4+rng.Intn(60), 20+rng.Intn(300), 1+rng.Intn(4)))
+		ops = append(ops, fmt.Sprintf("stress %d %d %d %d %d", rng.Int63(), 2+rng.Intn(7), 4+rng.Intn(60), 200+rng.Intn(3000), 1+rng.Intn(4)))
 	}
 	return ops
 }
@@ -1128,22 +1147,32 @@ func itStressOnce(seed int64, nw, nk, np, nr int, st *Stats) []string {
 					checkScan(true)
 				default:
 					ki := r.Intn(len(pool))
-					// every Put completed before the Get started must be visible:
-					// the value read must not be older than what that writer had completed.
-					before := make([]int32, nw)
-					for wr := range before {
-						before[wr] = atomic.LoadInt32(&completed[ki].seq[wr])
-					}
-					vs := l.Get(pool[ki])
-					anyDone := false
-					for _, b := range before {
-						if b >= 0 {
-							anyDone = true
+					target := pool[ki]
+					// Get(target) returns the first entry >= target with the same user key, i.e.
+					// target itself once it has been Put, else an older version of the user key.
+					// Snapshot, before the Get, what every writer had completed on these keys.
+					var cands []int
+					for kj := range pool {
+						if y.SameKey(pool[kj], target) && y.ParseTs(pool[kj]) <= y.ParseTs(target) {
+							cands = append(cands, kj)
 						}
 					}
+					before := map[int][]int32{}
+					exactDone := false
+					for _, kj := range cands {
+						b := make([]int32, nw)
+						for wr := range b {
+							b[wr] = atomic.LoadInt32(&completed[kj].seq[wr])
+							if kj == ki && b[wr] >= 0 {
+								exactDone = true
+							}
+						}
+						before[kj] = b
+					}
+					vs := l.Get(target)
 					if vs.Value == nil {
-						if anyDone {
-							report(fmt.Sprintf("[skl-conc-lost] Get(%s) found nothing after a completed Put", hx(pool[ki])))
+						if exactDone {
+							report(fmt.Sprintf("[skl-conc-lost] Get(%s) found nothing after a completed Put", hx(target)))
 						}
 						continue
 					}
@@ -1152,14 +1181,24 @@ func itStressOnce(seed int64, nw, nk, np, nr int, st *Stats) []string {
 						report(fmt.Sprintf("[skl-conc-torn] Get saw a value that no Put wrote: %s", hx(v)))
 						continue
 					}
-					seq := int32(v[1])<<24 | int32(v[2])<<16 | int32(v[3])<<8 | int32(v[4])
-					if seq < before[v[0]] {
-						// an older write of the same writer on the same key after a newer one completed
-						// (writers write each key with increasing seq)
-						report(fmt.Sprintf("[skl-conc-stale] Get(%s) returned writer %d seq %d after its seq %d completed", hx(pool[ki]), v[0], seq, before[v[0]]))
+					found := -1
+					for _, kj := range cands {
+						if y.ParseTs(pool[kj]) == vs.Version {
+							found = kj
+						}
 					}
-					if vs.Version != y.ParseTs(pool[ki]) {
-						report("[skl-conc-get] Get returned a wrong Version")
+					if found < 0 {
+						report(fmt.Sprintf("[skl-conc-get] Get(%s) returned Version %d: no such version of this user key <= the target was ever Put", hx(target), vs.Version))
+						continue
+					}
+					if exactDone && found != ki {
+						report(fmt.Sprintf("[skl-conc-stale] Get(%s) returned older version %d after a Put of the exact key completed", hx(target), vs.Version))
+						continue
+					}
+					seq := int32(v[1])<<24 | int32(v[2])<<16 | int32(v[3])<<8 | int32(v[4])
+					if seq < before[found][v[0]] {
+						// an older write of the same writer on the same key after a newer one completed
+						report(fmt.Sprintf("[skl-conc-stale] Get(%s) returned writer %d seq %d after its seq %d on that key completed", hx(target), v[0], seq, before[found][v[0]]))
 					}
 				}
 			}
